@@ -252,7 +252,9 @@ def check_props_file(prop):
     for blk in re.split(r'\n(?=Closed under the global context|Axioms:)', out):
         if blk.startswith('Axioms:'):
             for ln in blk.split('\n')[1:]:
-                m = re.match(r'^([A-Za-z_][\w.\']*)\s*:', ln)
+                # "name : type" or, for long types, "name" alone on its line
+                # followed by an indented ": type"
+                m = re.match(r'^([A-Za-z_][\w.\']*)\s*(:|$)', ln)
                 if m and m.group(1) not in axioms:
                     axioms.append(m.group(1))
     n_pa = len(re.findall(r'Closed under the global context|Axioms:', out))
@@ -581,7 +583,7 @@ def finish(pid, tier, seed, t0, cov, violations, out_lines, prop):
 def replay(path, seed):
     data = json.load(open(path))
     prop = load_prop(data['property'])
-    if data.get('case') is None:
+    if data.get('case') is None or data.get('kind') == 'proof-obligation':
         print('replay file names a failed proof obligation: %s' % data.get('failing'))
         rp = getattr(prop, 'replay_obligation', None)
         return rp(data) if rp else 1
